@@ -47,6 +47,21 @@ pub struct TypeOps {
     /// from_slice, clone, ==, Debug, drop (C01 follow-ups that every type supports); Err on
     /// a failed self-equality that is not explained by NaN
     pub basic_followups: fn(&[u8]) -> Result<bool, String>,
+    /// decode -> encode -> decode -> encode (C07); None if the input is rejected
+    pub roundtrip: fn(&[u8]) -> Option<Result<RoundTrip, String>>,
+    pub roundtrip_tagged: Option<fn(&[u8]) -> Option<Result<RoundTrip, String>>>,
+}
+
+pub struct RoundTrip {
+    /// enc(dec(b))
+    pub b1: Vec<u8>,
+    /// dec(b1) == dec(b) by derived equality
+    pub eq: bool,
+    /// … by Debug rendering (structural; all NaNs alike)
+    pub debug_eq: bool,
+    pub has_nan: bool,
+    /// enc(dec(b1))
+    pub b2: Vec<u8>,
 }
 
 macro_rules! ops {
@@ -78,6 +93,19 @@ macro_rules! ops {
                 }
                 Err(_) => Ok(false),
             },
+            roundtrip: |b| {
+                let v = <$t>::from_slice(b).ok()?;
+                Some((|| {
+                    let d = format!("{:?}", v);
+                    let b1 = v.clone().to_vec().map_err(|e| format!("accepted value fails to encode: {:?}", e))?;
+                    let v1 = <$t>::from_slice(&b1).map_err(|e| format!("own encoding {} rejected: {:?}", crate::cbor::hex_trunc(&b1, 200), e))?;
+                    let d1 = format!("{:?}", v1);
+                    let eq = v1 == v;
+                    let b2 = v1.to_vec().map_err(|e| format!("re-decoded value fails to encode: {:?}", e))?;
+                    Ok(RoundTrip { b1, eq, debug_eq: d == d1, has_nan: d.contains("NaN"), b2 })
+                })())
+            },
+            roundtrip_tagged: None,
         }
     };
     ($t:ty, $name:expr, $shape:expr, tagged) => {{
@@ -85,6 +113,18 @@ macro_rules! ops {
         o.tag = Some(<$t as TaggedCborSerializable>::TAG);
         o.dec_tagged = Some(|b| <$t>::from_tagged_slice(b).map(|v| format!("{:?}", v)));
         o.recode_tagged = Some(|b| <$t>::from_tagged_slice(b).ok().map(|v| v.to_tagged_vec()));
+        o.roundtrip_tagged = Some(|b| {
+            let v = <$t>::from_tagged_slice(b).ok()?;
+            Some((|| {
+                let d = format!("{:?}", v);
+                let b1 = v.clone().to_tagged_vec().map_err(|e| format!("accepted value fails to encode tagged: {:?}", e))?;
+                let v1 = <$t>::from_tagged_slice(&b1).map_err(|e| format!("own tagged encoding {} rejected: {:?}", crate::cbor::hex_trunc(&b1, 200), e))?;
+                let d1 = format!("{:?}", v1);
+                let eq = v1 == v;
+                let b2 = v1.to_tagged_vec().map_err(|e| format!("re-decoded value fails to encode tagged: {:?}", e))?;
+                Ok(RoundTrip { b1, eq, debug_eq: d == d1, has_nan: d.contains("NaN"), b2 })
+            })())
+        });
         o
     }};
 }
